@@ -3,6 +3,7 @@ import jax
 import jax.numpy as jnp
 import genjax
 from genjax import ChoiceMapBuilder as C
+from genjax import Selection as S
 from genjax import Target
 from genjax._src.inference.smc import ChangeTarget, Importance, ImportanceK
 from jax.scipy.special import logsumexp
@@ -15,7 +16,7 @@ tfd = tfp.distributions
 LEVEL = "model_checking"
 BOUNDS = {
     "targets": "conjugate Gaussian (mu~N(0,3), v~N(mu,s) observed, s symbolic); two-latent Gaussian chain; flip-flip (x~flip(.3), y~flip(x?.9:.2) observed, both observation values)",
-    "algorithms": "Importance and ImportanceK (K = 2, 3) without proposal and with a Marginal gen-fn proposal q(mu; a, b) (symbolic a, b>0); ChangeTarget; random_weighted / estimate_logpdf / estimate_normalizing_constant",
+    "algorithms": "Importance and ImportanceK (K = 2, 3) without proposal and with a Marginal gen-fn proposal q(mu; a, b) (symbolic a, b>0), Importance with an auxiliary-variable proposal (Marginal over a strict-subset selection); ChangeTarget; random_weighted / estimate_logpdf / estimate_normalizing_constant",
     "symbolic": "observations, model and proposal parameters, every sampled value (draw atoms of the key)",
 }
 ASSUMPTIONS = [
@@ -116,6 +117,40 @@ def obligations(tier, seed):
 
     obs.append(Ob("C26/importance+proposal/gauss", impq, (KEY, F(0.5), F(1.3), F(0.2), F(0.8)), assume=pos(1, 4), timeout_s=30,
                   note="proposal q(mu; a, b): weight == log p(mu,obs) - log q(mu)"))
+
+    # proposal with an auxiliary choice UPSTREAM of the proposed one (Marginal over a strict-subset selection): the weight must use the
+    # density of mu given the auxiliary value that actually produced it (the proposal's internal simulate trace is recorded by a harness wrapper)
+    def impaux(key, s, o, a):
+        @genjax.marginal(selection=S.at["mu"])
+        @genjax.gen
+        def q(target):
+            aux = genjax.normal(a, 1.0) @ "aux"
+            _ = genjax.normal(aux, 0.5) @ "mu"
+
+        cls = type(q.gen_fn)
+        rec, orig = [], cls.simulate
+
+        def simulate(self, key_, args_):
+            tr = orig(self, key_, args_)
+            if self is q.gen_fn:
+                rec.append(tr)
+            return tr
+
+        t = Target(gauss, (s,), C["v"].set(o))
+        cls.simulate = simulate
+        try:
+            pc = Importance(t, q).run_smc(key)
+        finally:
+            cls.simulate = orig
+        assert len(rec) == 1, len(rec)
+        aux = rec[0].get_choices()["aux"]
+        ch = pc.get_particles().get_choices()
+        mu, v = ch["mu"][0], ch["v"][0]
+        w = lj_gauss(mu, o, s) - lpn(mu, aux, 0.5)
+        return (v, pc.get_log_weights()[0], mu), (o, w, rec[0].get_choices()["mu"])
+
+    obs.append(Ob("C26/importance+aux-proposal/gauss", impaux, (KEY, F(0.5), F(1.3), F(0.2)), assume=pos(1), timeout_s=30,
+                  note="proposal q(aux) q(mu | aux) marginalised to mu: weight == log p(mu,obs) - log q(mu | the aux that produced mu) (properly weighted with auxiliary variables)"))
 
     # ---- 3. ImportanceK: every particle properly weighted, evidence == logsumexp - log K, particles use distinct keys
     for K in Ks:
